@@ -19,7 +19,7 @@ class Stream:
     a disagreement is a failing input by itself)."""
 
     def __init__(self, name, role, impl_lines, model_lines=None, judge=None, nontrivial=None,
-                 exhaustive=False, rule="", canon=None, impl_env=None, known=None):
+                 exhaustive=False, rule="", canon=None, impl_env=None, known=None, post=None):
         self.name = name
         self.role = role
         self.impl_lines = impl_lines
@@ -31,6 +31,9 @@ class Stream:
         self.canon = canon            # canon(out) -> out  (applied to both sides)
         self.impl_env = impl_env
         self.known = known            # known(impl_line, impl_out, model_out) -> finding id or None
+        # role 'check': post(impl_line, impl_out) -> model line evaluating the property's own boolean
+        # checker on the implementation's output; the expected model output is "B:1"
+        self.post = post
 
 
 def load_known_findings():
@@ -134,7 +137,14 @@ def run_check(pid, tier, seed):
         for st in streams:
             ts = time.time()
             io = rvlib.run_sharded(rvh, st.impl_lines, work, st.name + ".impl", env=st.impl_env)
-            mo = rvlib.run_sharded(rvm, st.model_lines, work, st.name + ".model")
+            if st.role == "check":
+                st.model_lines = [st.post(l, o) for l, o in zip(st.impl_lines, io)]
+                mo = rvlib.run_sharded(rvm, st.model_lines, work, st.name + ".model")
+                io_raw = io
+                io = ["B:1" if o == "B:1" else "B:0 impl=" + r for o, r in zip(mo, io_raw)]
+                mo = ["B:1"] * len(io)
+            else:
+                mo = rvlib.run_sharded(rvm, st.model_lines, work, st.name + ".model")
             n = len(st.impl_lines)
             evaluations += n
             nt = set()
@@ -163,7 +173,7 @@ def run_check(pid, tier, seed):
                     known_hit.setdefault(kid, (st.name, line, a, b))
                     continue
                 failing = None
-                if st.role == "spec":
+                if st.role in ("spec", "check"):
                     failing = True
                 elif st.judge:
                     failing = st.judge(line, a)
